@@ -129,6 +129,17 @@ impl Multicast {
         self.remote_setup_port == port
     }
 
+    /// Queues one answer for the next uplink on the setup port. A downlink may carry more
+    /// requests than one uplink can answer: answers that no longer fit a single frame are
+    /// dropped, like trailing MAC command answers, instead of overflowing the queue.
+    fn queue_answer(pending: &mut heapless::Vec<u8, 256>, answer: &[u8]) {
+        // MHDR + FHDR with up to 15 bytes of FOpts + FPort + MIC = 28 bytes of a 256 byte frame
+        const MAX_PENDING_ANSWER_BYTES: usize = 256 - 28;
+        if pending.len() + answer.len() <= MAX_PENDING_ANSWER_BYTES {
+            let _ = pending.extend_from_slice(answer);
+        }
+    }
+
     pub(crate) fn handle_setup_message(&mut self, data: &[u8]) -> Response {
         if self.mc_k_e_key.is_none() {
             return Response::NoUpdate;
@@ -147,7 +158,7 @@ impl Multicast {
                     self.sessions[group_id as usize] = Some(session);
                     let mut ans = McGroupSetupAnsCreator::new();
                     ans.mc_group_id_header(group_id);
-                    self.pending_uplinks.extend_from_slice(ans.build()).unwrap();
+                    Self::queue_answer(&mut self.pending_uplinks, ans.build());
                     new_session = Some(Response::GroupSetupTransmitRequest { group_id });
                 }
                 DownlinkRemoteSetup::PackageVersionReq(_) => {
@@ -156,7 +167,7 @@ impl Multicast {
                     let mut ans = PackageVersionAnsCreator::new();
                     ans.package_identifier(MULTICAST_CONTROL_PACKAGE);
                     ans.package_version(MULTICAST_CONTROL_PACKAGE_VERSION);
-                    self.pending_uplinks.extend_from_slice(ans.build()).unwrap();
+                    Self::queue_answer(&mut self.pending_uplinks, ans.build());
                 }
                 DownlinkRemoteSetup::McGroupDeleteReq(req) => {
                     let group_id = req.mc_group_id_header();
@@ -167,7 +178,7 @@ impl Multicast {
                     } else {
                         ans.mc_group_undefined(true);
                     }
-                    self.pending_uplinks.extend_from_slice(ans.build()).unwrap();
+                    Self::queue_answer(&mut self.pending_uplinks, ans.build());
                 }
                 DownlinkRemoteSetup::McGroupStatusReq(r) => {
                     let bm = r.req_group_mask();
@@ -185,7 +196,7 @@ impl Multicast {
                         }
                     }
                     ans.nb_total_groups(nb_total_groups);
-                    self.pending_uplinks.extend_from_slice(ans.build()).unwrap();
+                    Self::queue_answer(&mut self.pending_uplinks, ans.build());
                 }
                 m => {
                     warn!("Unhandled multicast message: {}", m);
